@@ -5,13 +5,32 @@ use crate::ev::Acc;
 use crate::Args;
 
 pub mod batch;
+pub mod dcs;
 pub mod draw;
+pub mod faults;
+pub mod init;
+pub mod testimg;
+pub mod transport;
 
 pub fn run(args: &Args) -> Option<Acc> {
     Some(match args.prop.as_str() {
         "C01" => draw::c01(args),
         "C02" => draw::c02(args),
         "C08" => draw::c08(args),
+        "C09" => init::c09(args),
+        "C10" => init::c10(args),
+        "C11" => init::c11(args),
+        "C12" => faults::c12(args),
+        "C13" => init::c13(args),
+        "C14" => dcs::c14(args),
+        "C15" => dcs::c15(args),
+        "C16" => dcs::c16(args),
+        "C17" => init::c17(args),
+        "C18" => dcs::c18(args),
+        "C19" => testimg::c19(args),
+        "C05" => transport::c05(args),
+        "C06" => transport::c06(args),
+        "C07" => transport::c07(args),
         "C03" => batch::c03(args),
         "C04" => batch::c04(args),
         "C20" => batch::c20(args),
